@@ -18,74 +18,81 @@ inductive MemOp where
   | del (t r : Nat)      -- `Vdeletetagref`
 deriving Repr, DecidableEq
 
-/-- implementation: arrays with `msize` doubling and the uint16 counter; outputs = returned count / success flag -/
-def runMem (m : Mem) : List MemOp → Mem × List Nat
+/-- implementation: arrays with `msize` doubling and the uint16 counter; outputs = returned count (or -1 = FAIL for an
+    insertion into a full Vgroup) / success flag of a deletion -/
+def runMem (m : Mem) : List MemOp → Mem × List Int
   | [] => (m, [])
   | .ins t r :: ops =>
-    let p := vinsertpair m t r
-    let q := runMem p.1 ops
-    (q.1, p.2 :: q.2)
+    match vinsertpair m t r with
+    | some p => let q := runMem p.1 ops; (q.1, (p.2 : Int) :: q.2)
+    | none => let q := runMem m ops; (q.1, -1 :: q.2)
   | .del t r :: ops =>
     match vdeletetagref m t r with
     | some m' => let q := runMem m' ops; (q.1, 1 :: q.2)
     | none => let q := runMem m ops; (q.1, 0 :: q.2)
 
-/-- reference: insert = snoc, delete = erase the first occurrence (the order of the others is kept) -/
-def runList (l : List Pair) : List MemOp → List Pair × List Nat
+/-- reference: a list of at most MAX_REF = 65535 members; insert = snoc (refused when full, list unchanged),
+    delete = erase the first occurrence (the order of the others is kept) -/
+def runList (l : List Pair) : List MemOp → List Pair × List Int
   | [] => (l, [])
-  | .ins t r :: ops => let q := runList (l ++ [(t, r)]) ops; (q.1, (l.length + 1) :: q.2)
+  | .ins t r :: ops =>
+    if l.length = MAX_REF then let q := runList l ops; (q.1, -1 :: q.2)
+    else let q := runList (l ++ [(t, r)]) ops; (q.1, ((l.length + 1 : Nat) : Int) :: q.2)
   | .del t r :: ops =>
     if (t, r) ∈ l then let q := runList (l.erase (t, r)) ops; (q.1, 1 :: q.2)
     else let q := runList l ops; (q.1, 0 :: q.2)
 
-theorem runMem_refines (ops : List MemOp) (m : Mem) (h : m.OK) (hb : m.nvelt + ops.length ≤ 65535) :
+theorem runMem_refines (ops : List MemOp) (m : Mem) (h : m.OK) :
     (runMem m ops).1.members = (runList m.members ops).1 ∧ (runMem m ops).2 = (runList m.members ops).2 ∧
     (runMem m ops).1.OK := by
   induction ops generalizing m with
   | nil => exact ⟨rfl, rfl, h⟩
   | cons op rest ih =>
-    simp only [List.length_cons] at hb
+    have c : MAX_REF = 65535 := by decide
+    have hl0 := Mem.members_length h
     cases op with
     | ins t r =>
-      obtain ⟨a, b, c⟩ := vinsertpair_snoc h (by omega) t r
-      have hl := Mem.members_length c
-      have hl0 := Mem.members_length h
-      have hb' : (vinsertpair m t r).1.nvelt + rest.length ≤ 65535 := by
-        rw [← hl, a, List.length_append, hl0]; simp; omega
-      obtain ⟨i1, i2, i3⟩ := ih (vinsertpair m t r).1 c hb'
-      simp only [runMem, runList]
-      rw [← a]
-      exact ⟨i1, by rw [b, i2], i3⟩
+      by_cases hf : m.nvelt = 65535
+      · have e := vinsertpair_full hf t r
+        have hl : m.members.length = MAX_REF := by rw [hl0, c]; exact hf
+        obtain ⟨i1, i2, i3⟩ := ih m h
+        simp only [runMem, runList, e, hl, if_true]
+        exact ⟨i1, by rw [i2], i3⟩
+      · have hlt : m.nvelt < 65535 := by have := h.2.2.2; omega
+        obtain ⟨p, e, a, b, c'⟩ := vinsertpair_snoc h hlt t r
+        have hl : ¬ m.members.length = MAX_REF := by rw [hl0, c]; exact hf
+        obtain ⟨i1, i2, i3⟩ := ih p.1 c'
+        simp only [runMem, runList, e, hl, if_false]
+        rw [← a]
+        exact ⟨i1, by rw [b, i2], i3⟩
     | del t r =>
       have hd := vdeletetagref_erase h t r
       cases hv : vdeletetagref m t r with
       | none =>
         rw [hv] at hd
-        obtain ⟨i1, i2, i3⟩ := ih m h (by omega)
+        obtain ⟨i1, i2, i3⟩ := ih m h
         simp only [runMem, runList, hv, hd, if_false]
         exact ⟨i1, by rw [i2], i3⟩
       | some m' =>
         rw [hv] at hd
         obtain ⟨d1, d2, d3⟩ := hd
-        have hl' := Mem.members_length d3
-        have hl0 := Mem.members_length h
-        have : m'.nvelt ≤ m.nvelt := by
-          rw [← hl', ← hl0, d2]; exact List.length_erase_le
-        obtain ⟨i1, i2, i3⟩ := ih m' d3 (by omega)
+        obtain ⟨i1, i2, i3⟩ := ih m' d3
         simp only [runMem, runList, hv, d1, if_true]
         rw [← d2]
         exact ⟨i1, by rw [i2], i3⟩
 
-/-- **Members refine a list** (every history of at most 65535 insertions/deletions on a new Vgroup, whatever
-    growth steps 64 → 128 → … → 65536 it crosses): the arrays hold exactly the reference list — insertion
-    appends, deletion removes the first occurrence and keeps the order of the rest — and every returned
-    count/flag agrees.
+/-- **Members refine a list — full strength** (EVERY history of insertions and deletions on a new Vgroup, of any
+    length, whatever growth steps 64 → 128 → … → 65536 it crosses): the arrays hold exactly the reference list —
+    insertion appends, deletion removes the first occurrence and keeps the order of the rest, an insertion into a
+    Vgroup that already has 65535 members fails and changes nothing — and every returned count/flag agrees.
 
-    Full statement (FALSE for the code as it is, see `vg_members_refine_list_false`):
-    `∀ ops, (runMem Mem.fresh ops).1.members = (runList [] ops).1`. -/
-theorem vg_members_refine_list_partial (ops : List MemOp) (h : ops.length ≤ 65535) :
+    History: up to /repo dc883d2 `vinsertpair` incremented the uint16 `nvelt` unconditionally; the 65536th insertion
+    wrapped it to 0 and the Vgroup silently lost all members (finding F12 / key `vg-nvelt-wrap`).  This file then
+    carried `nvelt_wrap_loses_members`, `vg_members_refine_list_false` and the bounded `vg_members_refine_list_partial`
+    (`ops.length ≤ 65535`); they are superseded by this theorem. -/
+theorem vg_members_refine_list (ops : List MemOp) :
     (runMem Mem.fresh ops).1.members = (runList [] ops).1 ∧ (runMem Mem.fresh ops).2 = (runList [] ops).2 := by
-  have := runMem_refines ops Mem.fresh Mem.fresh_ok (by simp [Mem.fresh]; omega)
+  have := runMem_refines ops Mem.fresh Mem.fresh_ok
   rw [Mem.fresh_members] at this
   exact ⟨this.1, this.2.1⟩
 
@@ -105,67 +112,12 @@ theorem vg_growth_keeps_members (m : Mem) (h : m.OK) : m.grow.members = m.member
 
 example : (Mem.grow ⟨64, 64, List.replicate 64 (5, 6)⟩).msize = 128 := by decide
 
-/-- **Defect (uint16 `nvelt`, `vgp.c` `vinsertpair`)**: on ANY Vgroup with 65535 members the next insertion leaves
-    the Vgroup with NO members and returns 0. -/
-theorem nvelt_wrap_loses_members (m : Mem) (h : m.OK) (hn : m.members.length = 65535) (t r : Nat) :
-    (vinsertpair m t r).1.members = [] ∧ (vinsertpair m t r).2 = 0 := by
+/-- at the limit: ANY Vgroup with 65535 members refuses the next insertion and keeps every member -/
+theorem vg_full_insert_fails (m : Mem) (h : m.OK) (hn : m.members.length = 65535) (t r : Nat) :
+    vinsertpair m t r = none ∧ (runMem m [.ins t r]).1 = m ∧ (runMem m [.ins t r]).2 = [-1] := by
   rw [Mem.members_length h] at hn
-  exact vinsertpair_wraps h hn t r
-
-theorem runMem_append (m : Mem) (a b : List MemOp) :
-    (runMem m (a ++ b)).1 = (runMem (runMem m a).1 b).1 := by
-  induction a generalizing m with
-  | nil => rfl
-  | cons op rest ih =>
-    cases op with
-    | ins t r => simp only [List.cons_append, runMem, ih]
-    | del t r =>
-      simp only [List.cons_append, runMem]
-      cases vdeletetagref m t r <;> simp only [ih]
-
-theorem runList_ins_replicate (n : Nat) (l : List Pair) :
-    (runList l (List.replicate n (.ins 1 1))).1 = l ++ List.replicate n (1, 1) := by
-  induction n generalizing l with
-  | zero => simp [runList]
-  | succ k ih => simp only [List.replicate_succ, runList, ih, List.append_assoc, List.singleton_append]
-
-theorem runList_append (l : List Pair) (a b : List MemOp) :
-    (runList l (a ++ b)).1 = (runList (runList l a).1 b).1 := by
-  induction a generalizing l with
-  | nil => rfl
-  | cons op rest ih =>
-    cases op with
-    | ins t r => simp only [List.cons_append, runList, ih]
-    | del t r =>
-      simp only [List.cons_append, runList]
-      split <;> simp only [ih]
-
-theorem wrap_aux (N : Nat) (hN : N = 65535) :
-    (runMem Mem.fresh (List.replicate N (.ins 1 1) ++ [.ins 1 1])).1.members = [] ∧
-    (runList [] (List.replicate N (.ins 1 1) ++ [.ins 1 1])).1.length = N + 1 := by
-  have hp := runMem_refines (List.replicate N (.ins 1 1)) Mem.fresh Mem.fresh_ok
-    (by rw [List.length_replicate]; simp only [Mem.fresh]; omega)
-  rw [Mem.fresh_members, runList_ins_replicate, List.nil_append] at hp
-  have hlen : (runMem Mem.fresh (List.replicate N (.ins 1 1))).1.members.length = 65535 := by
-    rw [hp.1, List.length_replicate]; exact hN
-  have hw := nvelt_wrap_loses_members _ hp.2.2 hlen 1 1
-  constructor
-  · rw [runMem_append]
-    simp only [runMem]
-    exact hw.1
-  · rw [runList_append, runList_ins_replicate, List.nil_append]
-    simp only [runList, List.length_append, List.length_replicate, List.length_cons, List.length_nil]
-
-/-- the full-strength member theorem is false: 65536 insertions into a new Vgroup leave it empty
-    (the reference list has 65536 entries) -/
-theorem vg_members_refine_list_false :
-    ¬ ∀ ops : List MemOp, (runMem Mem.fresh ops).1.members = (runList [] ops).1 := by
-  intro hall
-  have h := hall (List.replicate 65535 (.ins 1 1) ++ [.ins 1 1])
-  obtain ⟨a, b⟩ := wrap_aux 65535 rfl
-  rw [a] at h
-  rw [← h] at b
-  exact absurd b (by decide)
+  have e := vinsertpair_full hn t r
+  simp [runMem, e]
 
 /-! ## 2. the DFTAG_VG record -/
 
@@ -174,6 +126,23 @@ theorem vg_members_refine_list_false :
     and, if `VG_ATTR_SET`, any attribute list) `vunpackvg (vpackvg g) = some g`. -/
 theorem vpackvg_roundtrip (g : VG) (h : g.WF) : vunpackvg (vpackvg g) = some g := by
   rw [vunpackvg_vpackvg g h.1, VG.norm_of_wf h]
+
+/-- **Record round trip with the proposed fix of finding 3** (`vpackvg` writes the flags word whenever the version is
+    VSET_NEW_VERSION): the clause "no flags ⇒ not version 4" of `VG.WF` is no longer needed — every Vgroup that
+    `vunpackvg` can produce from a well-formed record packs back to a record that unpacks to itself. -/
+theorem vpackvg_roundtrip_fixed3 (g : VG) (h : g.WFfix) : vunpackvg (vpackvgF true g) = some g := by
+  have := vunpackvg_vpackvgF true g h.1 (fun e => by cases e)
+  rw [this]
+  obtain ⟨_, h1, h2⟩ := h
+  cases g; simp_all [VG.norm, normName_of_ne]
+
+/-- the witness that separates the two: version 4, flags 0 (legal on disk; `more` odd).  Packed by the current code the
+    record has no flags word and `vunpackvg` runs off its end; packed by the fixed code it round-trips. -/
+example : let g : VG := { members := [(1000, 8)], name := some [112], version := 4, flags := 0, more := 1 }
+    g.WFfix ∧ ¬ g.WF ∧ vunpackvg (vpackvgF false g) = none ∧ vunpackvg (vpackvgF true g) = some g := by decide
+
+/-- on every Vgroup the current code can represent, the fix changes no byte of the record -/
+theorem fixed3_changes_nothing_wf (g : VG) (h : g.WFmem) : vpackvgF true g = vpackvg g := vpackvgF_eq_of_wfmem true g h
 
 /-- the in-memory variant: an empty name/class (`Vsetname(h, "")`) comes back as "no name" and nothing else changes -/
 theorem vpackvg_roundtrip_mem (g : VG) (h : g.WFmem) : vunpackvg (vpackvg g) = some g.norm :=
@@ -196,13 +165,14 @@ example : vpackvg { members := [(1965, 2)], name := some [65], version := 3 } =
 /-- **Refinement of the reference graph** — for every history of `Vattach(-1)`, `Vattach`, `Vdetach`, `Vsetname`,
     `Vsetclass`, `Vaddtagref`, `Vinsert`, `Vdeletetagref`, `Vsetattr`, `Vdelete`, `VSdelete`, Vdata creation,
     `Vend/Vstart`, and all queries, starting from an empty file and admissible at every step
-    (`admissible`: member counts stay below 65535, names below 65536 bytes, `Vdelete` only of detached Vgroups,
-    reopen only with all handles detached):
+    (`admissible`: names below 65536 bytes, `Vdelete` only of detached Vgroups, reopen only with all handles detached;
+    member counts are NOT bounded: a full Vgroup refuses further members in both models):
     every answer of the implementation model equals the answer of the reference graph, and the abstraction of the
     final implementation state IS the final reference graph (ordered member lists, names, classes, attribute lists,
     sets of Vgroups and Vdatas, handles) — through open handles and across detach/reopen alike.
 
-    Full statement (no admissibility hypothesis) is false at the member limit: `vg_members_refine_list_false`. -/
+    The three remaining hypotheses exclude undefined behaviour of the C code (use of a freed VGROUP), the silent
+    truncation of names ≥ 65536 bytes by the 16-bit length field, and changes lost by `Vend` with attached handles. -/
 theorem vg_refines_graph_partial (ops : List Op) (h : admissibleHist {} ops = true) :
     (run {} ops).2 = (grun {} ops).2 ∧ (run {} ops).1.abs = (grun {} ops).1 := by
   have := sim_run ops {} inv_empty ginv_empty h
